@@ -77,6 +77,104 @@ def _push_scopes(ctx, f, stmts, stack):
     return out
 
 
+def _private_callee(ctx, g, call):
+    eds = [e for e in ctx.cg._resolve_callee(g, call.func, call, 'call')
+           if not e.is_ext and e.precision == 'exact']
+    if len(eds) == 1 and eds[0].dst.name.startswith('_') and \
+            not eds[0].dst.name.startswith('__'):
+        return eds[0].dst
+    return None
+
+
+def _worklist_scopes(ctx, f, stmts, stack):
+    """[(function, statements, name of the work-list there or None, are its
+    return values pushed?)]: the loop body and, transitively, the private
+    helpers that are handed the list or whose result is pushed."""
+    out = [(f, stmts, stack, False)]
+    seen = set()
+    i = 0
+    while i < len(out) and len(out) < 12:
+        g, body, wl, rp = out[i]
+        i += 1
+        for st in body:
+            for c in ast.walk(st):
+                h = arg_wl = None
+                pushed_result = False
+                if isinstance(c, ast.Call) and wl is not None and \
+                        isinstance(c.func, ast.Attribute) and c.func.attr in (
+                        'extend', 'append') and norm_src(
+                        c.func.value) == wl and c.args and isinstance(
+                        c.args[0], ast.Call):
+                    h, pushed_result = _private_callee(ctx, g, c.args[0]), True
+                elif isinstance(c, ast.Return) and rp and isinstance(
+                        c.value, ast.Call):
+                    h, pushed_result = _private_callee(ctx, g, c.value), True
+                elif isinstance(c, ast.Call) and wl is not None and any(
+                        norm_src(a) == wl for a in c.args):
+                    h = _private_callee(ctx, g, c)
+                    if h is not None:
+                        prm = h.params[1:] if h.cls is not None else h.params
+                        for j, a in enumerate(c.args):
+                            if norm_src(a) == wl and j < len(prm):
+                                arg_wl = prm[j]
+                if h is None or (h.fq, pushed_result) in seen:
+                    continue
+                seen.add((h.fq, pushed_result))
+                if pushed_result:
+                    rets = [n.value for n in own_nodes(h) if isinstance(
+                        n, ast.Return) and isinstance(n.value, ast.Name)]
+                    out.append((h, h.node.body,
+                                rets[0].id if rets else None, True))
+                elif arg_wl:
+                    out.append((h, h.node.body, arg_wl, False))
+    return out
+
+
+def _pushed(ctx, scope, stmts, scopes, depth=0):
+    """Expressions whose value reaches the work-list from these statements of
+    a scope: arguments of append/extend on its list, its return values when
+    they are pushed by the caller, and - through calls of private helpers -
+    what those push."""
+    g, _body, wl, rp = scope
+    out = []
+
+    def expand(e):
+        if isinstance(e, ast.BoolOp) and isinstance(e.op, ast.Or):
+            e = e.values[0]
+        if isinstance(e, (ast.Tuple, ast.List)):
+            for x in e.elts:
+                expand(x)
+            return
+        if isinstance(e, ast.Call) and depth < 3:
+            h = _private_callee(ctx, g, e)
+            if h is not None:
+                for sc in scopes:
+                    if sc[0] is h and sc[3]:
+                        out.extend(_pushed(ctx, sc, sc[1], scopes, depth + 1))
+                        return
+        if isinstance(e, ast.Name) and wl is not None and e.id == wl:
+            return
+        out.append(e)
+
+    for st in stmts:
+        for c in ast.walk(st):
+            if isinstance(c, ast.Call) and wl is not None and isinstance(
+                    c.func, ast.Attribute) and c.func.attr in (
+                    'append', 'extend') and norm_src(c.func.value) == wl \
+                    and c.args:
+                expand(c.args[0])
+            elif isinstance(c, ast.Return) and rp and c.value is not None:
+                expand(c.value)
+            elif isinstance(c, ast.Call) and wl is not None and depth < 3 \
+                    and any(norm_src(a) == wl for a in c.args):
+                # a helper that is handed the list pushes on our behalf
+                h = _private_callee(ctx, g, c)
+                for sc in scopes:
+                    if h is not None and sc[0] is h and not sc[3]:
+                        out.extend(_pushed(ctx, sc, sc[1], scopes, depth + 1))
+    return out
+
+
 def rule_worklist(ctx):
     rr = RuleResult('C15', 'C15.worklist', 'MPT',
                     'work-list discipline of complete()', floor=6)
@@ -131,75 +229,95 @@ def rule_worklist(ctx):
         rr.fail(key_of(f, 'done-set initialisation'),
                 'the done-set is not initialised from self.cells', file=EXCEL,
                 function=f.qualname, line=f.lineno)
-    # pushes
-    pushes = [n for n in ast.walk(lp) if isinstance(n, ast.Call) and call_name(
-        n) in ('extend', 'append') and norm_src(n.func.value) == stack]
-    ptxt = [norm_src(x) for x in pushes]
+    # pushes: what gets onto the work-list, wherever the code that decides
+    # it lives - the loop body, a private helper that is handed the list, or
+    # a private helper whose *result* is pushed (its return values count)
+    scopes = _worklist_scopes(ctx, f, lp.body, stack)
     rr.instances += 3
+
+    def under(scope, stmts):
+        return _pushed(ctx, scope, stmts, scopes)
+
     # (1) reference branch
     ref_alias = {'self.references'}
     from ..util import assign_pairs
-    for t, v, _st in assign_pairs(f):
-        if isinstance(t, ast.Name) and norm_src(v) == 'self.references':
-            ref_alias.add(t.id)
-    ref_if = [n for n in lp.body if isinstance(n, ast.If) and any(
-        norm_src(n.test).endswith(' in %s' % a) for a in ref_alias)]
-    if ref_if and any(call_name(c) == 'extend' and '.inputs' in norm_src(c)
-                      for s in ref_if[0].body for c in ast.walk(s)
-                      if isinstance(c, ast.Call)):
+    for g, _b, _wl, _rp in scopes:
+        for t, v, _st in assign_pairs(g):
+            if isinstance(t, ast.Name) and norm_src(v) == 'self.references':
+                ref_alias.add(t.id)
+    ref_ifs = [(sc, n) for sc in scopes for st in sc[1] for n in ast.walk(st)
+               if isinstance(n, ast.If) and any(
+                   norm_src(n.test).endswith(' in %s' % a) for a in ref_alias)]
+    if not ref_ifs:
+        raise AnalysisError('complete: the branch for defined names (`<node> '
+                            'in self.references`) was not found')
+    if any('.inputs' in norm_src(e) for sc, n in ref_ifs
+           for e in under(sc, n.body)):
         rr.ok('a defined name pushes the inputs of its reference cell',
-              '%s:%d' % (EXCEL, ref_if[0].lineno))
+              '%s:%d' % (EXCEL, ref_ifs[0][1].lineno))
     else:
         rr.fail(key_of(f, 'reference inputs not pushed'),
                 'for a defined name complete() no longer enqueues the inputs '
                 'of the reference: the cells a name points to are not loaded',
                 file=EXCEL, function=f.qualname, line=lp.lineno)
     # (2) anchor branch
-    anch = [n for n in ast.walk(lp) if isinstance(n, ast.If) and
+    anch = [(sc, n) for sc in scopes for st in sc[1] for n in ast.walk(st)
+            if isinstance(n, ast.If) and
             match("__rng.get('anchor')", n.test) is not None]
+    if not anch:
+        raise AnalysisError('complete: the anchor branch (`rng.get(\'anchor'
+                            '\')`) was not found')
     aok = False
-    if anch:
-        # the branch itself, a private helper it hands the work-list to, or
-        # a private helper whose returned list it pushes
-        for body, wl, lits in _push_scopes(ctx, f, anch[0].body, stack):
-            inner = [c.args[0] for s in body for c in ast.walk(s)
-                     if isinstance(c, ast.Call) and call_name(c) in (
-                         'append', 'extend') and c.args and
-                     norm_src(c.func.value) == wl]
-            inner += [e for l_ in lits for e in l_.elts]
-            fn = [c for s in body for c in ast.walk(s)
-                  if isinstance(c, ast.Call) and call_name(c) == 'add_function']
-            if inner and fn:
-                pushed = norm_src(inner[0])
-                inputs = kwarg(fn[0], 'inputs')
-                aok = aok or (inputs is not None and
-                              pushed in norm_src(inputs))
+    for sc, n in anch:
+        vals = under(sc, n.body)
+        # the range the anchor is linked to: inputs=[...] of the add_function
+        # in the branch or in the helper it delegates to
+        fns = [c for st in n.body for c in ast.walk(st)
+               if isinstance(c, ast.Call) and call_name(c) == 'add_function']
+        for st in n.body:
+            for c in ast.walk(st):
+                if isinstance(c, ast.Call):
+                    for e in ctx.cg._resolve_callee(sc[0], c.func, c, 'call'):
+                        if not e.is_ext and e.precision == 'exact' and \
+                                e.dst.name.startswith('_'):
+                            fns += [c2 for c2 in own_nodes(e.dst)
+                                    if isinstance(c2, ast.Call) and
+                                    call_name(c2) == 'add_function']
+        for fn_ in fns:
+            inputs = kwarg(fn_, 'inputs') or (
+                fn_.args[2] if len(fn_.args) > 2 else None)
+            if inputs is not None and any(
+                    norm_src(v_) in norm_src(inputs) for v_ in vals):
+                aok = True
     if aok:
         rr.ok('an anchor (A1#) links to the spill range and pushes that range',
-              '%s:%d' % (EXCEL, anch[0].lineno))
+              '%s:%d' % (EXCEL, anch[0][1].lineno))
     else:
         rr.fail(key_of(f, 'spill range not pushed'),
                 'for an anchor reference complete() no longer enqueues the '
                 'array-formula range it links to', file=EXCEL,
                 function=f.qualname, line=lp.lineno)
     # (3) cells added push their inputs
-    cok = False
-    for body, wl, _lits in _push_scopes(ctx, f, lp.body, stack):
-        for n in [x for s_ in body for x in ast.walk(s_)]:
+    cok, seen_add = False, False
+    for sc in scopes:
+        for n in [x for s_ in sc[1] for x in ast.walk(s_)]:
             if not isinstance(n, ast.For):
                 continue
             adds = [s for s in n.body if isinstance(s, ast.Assign) and any(
                 isinstance(c, ast.Call) and call_name(c) == 'add_cell'
                 for c in ast.walk(s.value))]
-            if adds:
-                var = adds[0].targets[0].id
-                for s in n.body:
-                    if isinstance(s, ast.If) and norm_src(s.test) == var and any(
-                            isinstance(c, ast.Call) and call_name(c) == 'extend'
-                            and norm_src(c.func.value) == wl and
-                            '%s.inputs' % var in norm_src(c)
-                            for x in s.body for c in ast.walk(x)):
-                        cok = True
+            if not adds:
+                continue
+            seen_add = True
+            var = adds[0].targets[0].id
+            for s in n.body:
+                if isinstance(s, ast.If) and norm_src(s.test) == var and any(
+                        ('%s.inputs' % var) in norm_src(e)
+                        for e in under(sc, s.body)):
+                    cok = True
+    if not seen_add:
+        raise AnalysisError('complete: the loop that adds the cells read from '
+                            'a sheet was not found')
     if cok:
         rr.ok('every cell added pushes its inputs', EXCEL)
     else:
